@@ -479,6 +479,18 @@ def _ancestors(ctx: Ctx, c: Collector) -> None:
                         pr.append("seeding does not store the trigger connection's delay")
         if not ok:
             pr.append("seeding does not enumerate every trigger connection of every simulator")
+        elif closes:
+            # the work-list starts out with every simulator that was given a direct ancestor (or with all simulators): with an
+            # empty work-list the closure loop never runs and only direct predecessors bound progress / max_advance
+            wls = [T.strip(i[2]) for i in closes[0].iters if i[1] == ("while",)]
+            wl = wls[0] if wls else None
+            if wl is not None and wl[0] == "var":
+                queued = [x for x in s.of_kind("call") if x.term[1] == ("attr", wl, "add") and x.term[2] == (destv,) and x.iters == e.iters
+                          and all(g in e.guards for g in x.guards)]
+                inits = [b for b in s.of_kind("bind") if b.term[1] == wl and not b.iters and T.contains((b.term[2],), ("attr", T.var(fi.params[0]), "sims"))]
+                if not queued and not inits:
+                    pr.append("the simulators that were given a direct triggering ancestor are not put on the work-list: the closure loop has nothing to process "
+                              "and ancestors more than one connection away never bound progress / max_advance")
     if not closes:
         pr.append("the closure never stores a combined trigger path")
     else:
